@@ -333,6 +333,14 @@ func init() {
 				"wins\" at the `k`-th `select`; `ncalls` / `nsel` count handler calls / selects."); err != nil {
 			return err
 		}
+		return nil
+	}})
+	// CreateWrapper in a module of its own (FactsC10IRc): its obligation is named when only it changes
+	register(Extractor{Module: "FactsC10IRc", Imports: []string{"EgVerif.Model.Retry"}, Run: func(r *Repo, w *Lean) error {
+		const retryFile = "pkg/resilience/retry.go"
+		w.Line("set_option linter.unusedVariables false")
+		w.Line("open EgVerif.Retry")
+		w.Line("")
 		if err := irEmit(r, w, retryFile, "RetryPolicy", "CreateWrapper", c10CreateWrapperSpec(),
 			"Result: `p.waitDuration` afterwards. `ws` = `p.WaitDuration`, `wd0` = `p.waitDuration` before, `parse` = `time.ParseDuration`."); err != nil {
 			return err
